@@ -41,8 +41,10 @@ type dkgCase struct {
 	Pkg         string `json:"pkg"`
 	N           int    `json:"n"`
 	T           int    `json:"t"`
-	Tampered    int    `json:"tampered"` // 0: everybody honest; k: party k commits to and reveals a moved key
-	IDs         []int  `json:"ids"`      // participant identifiers in session order
+	Tampered    int    `json:"tampered"`    // 0: everybody honest; k: party k commits to and reveals a moved key
+	IDs         []int  `json:"ids"`         // participant identifiers in session order
+	ReuseGroup  int    `json:"reuse_group"` // > 0: the same party objects go through the runs 1, 2, .. of this group
+	ReuseRun    int    `json:"reuse_run"`
 	Stuck       bool   `json:"stuck"`    // some KeyGen did not return (or panicked)
 	Accepted    []bool `json:"accepted"` // per party: KeyGen returned without error
 	CrossError  []bool `json:"cross_error"`
@@ -80,6 +82,13 @@ func moveKey(a *api, payload []byte) []byte {
 	return out
 }
 
+// instance reuse: while reuseObjs is non-nil, runDKG takes its party objects from it (and leaves them there for the next run)
+var (
+	reuseObjs  map[uint16]keygenParty
+	reuseGroup int
+	reuseRun   int
+)
+
 func runDKG(a *api, n, t, tampered int, ids ...uint16) dkgCase {
 	res := dkgCase{Kind: "dkg", Pkg: a.name, N: n, T: t, Tampered: tampered, Accepted: make([]bool, n), CrossError: make([]bool, n)}
 	parties := make([]uint16, n)
@@ -92,11 +101,22 @@ func runDKG(a *api, n, t, tampered int, ids ...uint16) dkgCase {
 	}
 	insts := make([]keygenParty, n)
 	for i := range insts {
+		if reuseObjs != nil && reuseObjs[parties[i]] != nil {
+			// instance reuse: the object that played this identifier in the previous run of the group
+			insts[i] = reuseObjs[parties[i]]
+			continue
+		}
 		if a.name == "bls" {
 			insts[i] = &bls.TBLS{Party: parties[i], Logger: nopLogger{}}
 		} else {
 			insts[i] = &ps.TPS{Curve: a.curve, Party: parties[i], Logger: nopLogger{}, MessageLength: 1}
 		}
+	}
+	if reuseObjs != nil {
+		for i := range insts {
+			reuseObjs[parties[i]] = insts[i]
+		}
+		res.ReuseGroup, res.ReuseRun = reuseGroup, reuseRun
 	}
 	var heldCommit sync.Mutex
 	deliver := func(i int, msg []byte, bc bool, to uint16) {
@@ -292,6 +312,28 @@ func dkgCases(a *api, thorough bool) {
 	}
 	// participant identifier sets that are not 1..n (bls: every >= t subset signs and verifies through bls.Verifier, which maps
 	// identifiers to ranks)
+	// instance reuse: the SAME objects through two and three consecutive Init + KeyGen runs (public API only); each run is
+	// judged like a run on fresh objects.  (n, t, moved key of party k or 0, identifiers) per run
+	type rn struct {
+		n, t, k int
+		ids     []uint16
+	}
+	groups := [][]rn{
+		{{3, 2, 0, nil}, {3, 2, 0, nil}, {3, 3, 0, nil}},
+		{{3, 2, 0, nil}, {3, 2, 3, nil}, {3, 2, 0, nil}},
+		{{3, 2, 1, nil}, {3, 2, 0, nil}},
+		{{4, 3, 0, nil}, {4, 3, 2, nil}, {4, 2, 0, nil}},
+		{{4, 3, 4, nil}, {4, 3, 0, []uint16{2, 3, 4, 1}}},
+		{{3, 2, 0, []uint16{1, 2, 4}}, {3, 2, 2, []uint16{1, 2, 4}}, {3, 2, 0, []uint16{4, 1, 2}}},
+	}
+	for gi, g := range groups {
+		reuseObjs, reuseGroup = map[uint16]keygenParty{}, gi+1
+		for ri, x := range g {
+			reuseRun = ri + 1
+			emit(runDKG(a, x.n, x.t, x.k, x.ids...))
+		}
+	}
+	reuseObjs, reuseGroup, reuseRun = nil, 0, 0
 	for _, ids := range [][]uint16{{1, 2, 4}, {2, 3, 5}, {1, 3, 4, 6}, {0, 1, 2}, {65533, 65534, 65535}} {
 		n := len(ids)
 		for t := 2; t <= n; t++ {
